@@ -19,217 +19,223 @@ with the non-NULL partition value.
 namespace MindsVerif.Props.C15
 open MindsVerif.TS
 
+set_option linter.unusedSectionVars false
+variable {α : Type} [DecidableEq α] [VOrd α]
+
 /-- no ORDER BY / GROUP BY / HAVING / OFFSET -/
-def plain (q : Query) : Prop :=
+def plain (q : Query α) : Prop :=
   q.orderBy = false ∧ q.groupBy = false ∧ q.having = false ∧ q.offset = false
 
-instance (q : Query) : Decidable (plain q) := by unfold plain; infer_instance
+instance (q : Query α) : Decidable (plain q) := by unfold plain; infer_instance
 
-/-- T15.1 for one query: the plan exists and, for every partition value `p` and every table `T`, the union of
+/-- T15.1 for one query: the plan exists and, for every partition value `e` and every table `T`, the union of
 the fetch selects is (as a multiset) the rows satisfying the user's time condition plus a valid choice `L` of
 the `window` most recent rows preceding its lower bound — all with non-NULL order value, restricted by the
-user's partition filters and to partition `p`. -/
-def RowsSpec (m : Meta) (q : Query) (tc : Option TC) : Prop :=
-  ∃ pl, planTS m q = .ok pl ∧ ∀ (p : List Int) (T : List Row),
-    ∃ L, WindowSpec m.window p m.nG tc q.whereC T L ∧
-      (fetched p T pl.selects).Perm (condRows p m.nG tc q.whereC T ++ L)
+user's partition filters and to partition `e`. -/
+def RowsSpec (cfg : Cfg) (m : Meta) (q : Query α) (tc : Option (TC α)) : Prop :=
+  ∃ pl, planTS cfg m q = .ok pl ∧ ∀ (e : Env α) (T : List (Row α)), envOk e m.nG = true →
+    ∃ L, WindowSpec m.window e m.nG tc q.whereC T L ∧
+      (fetched e T pl.selects).Perm (condRows e m.nG tc q.whereC T ++ L)
 
 /-- partition step: no step without group columns; otherwise its WHERE selects exactly the rows satisfying the
 user's non-time filters -/
-def PartSpec (m : Meta) (q : Query) (tc : Option TC) (pl : Plan) : Prop :=
+def PartSpec (m : Meta) (q : Query α) (tc : Option (TC α)) (pl : Plan α) : Prop :=
   (m.nG = 0 → pl.partWhere = none) ∧
-  (m.nG ≠ 0 → ∃ pw, pl.partWhere = some pw ∧ ∀ p r, selO p pw r = restSelO p tc q.whereC r)
+  (m.nG ≠ 0 → ∃ pw, pl.partWhere = some pw ∧ ∀ e r, selO e pw r = restSelO e tc q.whereC r)
 
 /-- T15.2 -/
-def OtfSpec (_q : Query) (tc : Option TC) (pl : Plan) : Prop := pl.otf = tc.map TC.toW
-def LimitSpec (m : Meta) (q : Query) (pl : Plan) : Prop :=
+def OtfSpec (_q : Query α) (tc : Option (TC α)) (pl : Plan α) : Prop := pl.otf = tc.map TC.toW
+def LimitSpec (m : Meta) (q : Query α) (pl : Plan α) : Prop :=
   pl.limitStep = q.limit ∧ ∀ s ∈ pl.selects, s.limit = none ∨ s.limit = some m.window
 
 /-- T15.3: everything that is not "allowed operators on order/group columns only" is rejected with
 PlanningException, and nothing else is ever raised -/
-def RejectSpec (m : Meta) (q : Query) : Prop :=
-  ((∀ w, q.whereC = some w → w.isOperation = true) → planTS m q ≠ .crash) ∧
+def RejectSpec (cfg : Cfg) (m : Meta) (q : Query α) : Prop :=
+  ((∀ w, q.whereC = some w → w.isOperation = true) → planTS cfg m q ≠ .crash) ∧
   ((q.orderBy = true ∨ q.groupBy = true ∨ q.having = true ∨ q.offset = true ∨
     (∃ w, q.whereC = some w ∧ (opsOk w = false ∨ colsOk m.nG w = false ∨ andOk w = false))) →
-      planTS m q = .planning)
+      planTS cfg m q = .planning)
 
 /-- the full statement of the property about the model (FALSE on the pinned tree: see the witnesses) -/
-def C15_full : Prop :=
-  ∀ (m : Meta) (q : Query),
-    RejectSpec m q ∧
+def C15_full (α : Type) [DecidableEq α] [VOrd α] : Prop :=
+  ∀ (cfg : Cfg) (m : Meta) (q : Query α),
+    RejectSpec cfg m q ∧
     ∀ tc, plain q → Dom m.nG tc q.whereC = true →
-      RowsSpec m q tc ∧ ∀ pl, planTS m q = .ok pl → PartSpec m q tc pl ∧ OtfSpec q tc pl ∧ LimitSpec m q pl
+      RowsSpec cfg m q tc ∧ ∀ pl, planTS cfg m q = .ok pl → PartSpec m q tc pl ∧ OtfSpec q tc pl ∧ LimitSpec m q pl
 
 /-! ## the plan on the domain -/
 
-theorem plan_tc (m : Meta) (q : Query) (tc : TC) (w : W) (hq : q.whereC = some w) (hp : plain q)
+theorem plan_tc (cfg : Cfg) (m : Meta) (q : Query α) (tc : TC α) (w : W α) (hq : q.whereC = some w) (hp : plain q)
     (hd : tcTree m.nG tc.toW w = true) :
-    planTS m q = .ok
+    planTS cfg m q = .ok
       ⟨if m.nG = 0 then none else some (removeTF (some tc.toW) w),
        (branchesSpec m.window tc w).1.map (injectSel m.nG), (branchesSpec m.window tc w).2,
        limitOf q.limit⟩ := by
   obtain ⟨ho, hg, hh, hf⟩ := hp
-  have hv : validO m.nG q.whereC = true := by rw [hq]; exact tc_validate tc w hd
+  have hv : validO cfg m.nG q.whereC = true := by rw [hq]; exact tc_validO tc cfg w hd
   have hft : ftOf q.whereC = FT.one tc.toW := by rw [hq]; exact tc_findTF tc w hd
-  have h := planTS_eq m q ho hg hh hf hv (some tc.toW) hft
-  rw [hq, branches_dom] at h
+  have h := planTS_eq_some cfg m q ho hg hh hf hv tc.toW hft
+  rw [normStep_tc, planOk_eq, hq, branches_dom] at h
   exact h
 
-theorem plan_pf (m : Meta) (q : Query) (w : W) (hq : q.whereC = some w) (hp : plain q)
+theorem plan_pf (cfg : Cfg) (m : Meta) (q : Query α) (w : W α) (hq : q.whereC = some w) (hp : plain q)
     (hd : pfTree m.nG w = true) :
-    planTS m q = .ok
+    planTS cfg m q = .ok
       ⟨if m.nG = 0 then none else some (some w),
        [injectSel m.nG ⟨addNotNull (some w), none⟩], none, limitOf q.limit⟩ := by
   obtain ⟨ho, hg, hh, hf⟩ := hp
-  have hv : validO m.nG q.whereC = true := by rw [hq]; exact pf_validate w hd
+  have hv : validO cfg m.nG q.whereC = true := by rw [hq]; exact pf_validO cfg w hd
   have hft : ftOf q.whereC = FT.none := by rw [hq]; exact pf_findTF w hd
-  have h := planTS_eq m q ho hg hh hf hv none hft
-  rw [hq] at h
+  have h := planTS_eq_none cfg m q ho hg hh hf hv hft
+  rw [planOk_eq, hq] at h
   simpa [branches, removeO, pf_removeTF_none w hd] using h
 
-theorem plan_none (m : Meta) (q : Query) (hq : q.whereC = none) (hp : plain q) :
-    planTS m q = .ok
+theorem plan_none (cfg : Cfg) (m : Meta) (q : Query α) (hq : q.whereC = none) (hp : plain q) :
+    planTS cfg m q = .ok
       ⟨if m.nG = 0 then none else some none,
        [injectSel m.nG ⟨addNotNull none, none⟩], none, limitOf q.limit⟩ := by
   obtain ⟨ho, hg, hh, hf⟩ := hp
-  have h := planTS_eq m q ho hg hh hf (by rw [hq]; rfl) none (by rw [hq]; rfl)
-  rw [hq] at h
+  have h := planTS_eq_none cfg m q ho hg hh hf (by rw [hq]; rfl) (by rw [hq]; rfl)
+  rw [planOk_eq, hq] at h
   simpa [branches, removeO] using h
 
 /-! ## T15.1 — the row sets, all nine classes, all tables -/
 
-theorem C15_rows_tc (m : Meta) (q : Query) (tc : TC) (w : W) (hq : q.whereC = some w) (hp : plain q)
-    (hd : tcTree m.nG tc.toW w = true) : RowsSpec m q (some tc) := by
-  refine ⟨_, plan_tc m q tc w hq hp hd, ?_⟩
-  intro p T
+theorem C15_rows_tc (cfg : Cfg) (m : Meta) (q : Query α) (tc : TC α) (w : W α) (hq : q.whereC = some w) (hp : plain q)
+    (hd : tcTree m.nG tc.toW w = true) : RowsSpec cfg m q (some tc) := by
+  refine ⟨_, plan_tc cfg m q tc w hq hp hd, ?_⟩
+  intro e T hok0
+  have hok : e.ns = true ∨ nonNullFrom e m.nG 0 = true := by simpa [envOk] using hok0
   rw [hq]
   simp only [WindowSpec, condRows, candRows, Option.bind]
   cases tc with
   | gt c =>
-    exact fetched_two p T m.window _ _ _ _
-      (fun r => selWin_pred (.gt c) p r w m.window _ hd (sel_time_cmp p r c).2.2.2)
-      (fun r => selAll_pred (.gt c) p r w _ hd (sel_time_cmp p r c).1)
+    exact fetched_two e T m.window _ _ _ _
+      (fun r => selWin_pred (.gt c) e r w m.window _ hd (sel_time_cmp e r c).2.2.2 hok)
+      (fun r => selAll_pred (.gt c) e r w _ hd (sel_time_cmp e r c).1 hok)
   | ge c =>
-    exact fetched_two p T m.window _ _ _ _
-      (fun r => selWin_pred (.ge c) p r w m.window _ hd (sel_time_cmp p r c).2.2.1)
-      (fun r => selAll_pred (.ge c) p r w _ hd (sel_time_cmp p r c).2.1)
+    exact fetched_two e T m.window _ _ _ _
+      (fun r => selWin_pred (.ge c) e r w m.window _ hd (sel_time_cmp e r c).2.2.1 hok)
+      (fun r => selAll_pred (.ge c) e r w _ hd (sel_time_cmp e r c).2.1 hok)
   | btw a b =>
-    exact fetched_two p T m.window _ _ _ _
-      (fun r => selWin_pred (.btw a b) p r w m.window _ hd (sel_time_cmp p r a).2.2.1)
-      (fun r => selAll_pred (.btw a b) p r w _ hd (sel_time_btw p r a b))
+    exact fetched_two e T m.window _ _ _ _
+      (fun r => selWin_pred (.btw a b) e r w m.window _ hd (sel_time_cmp e r a).2.2.1 hok)
+      (fun r => selAll_pred (.btw a b) e r w _ hd (sel_time_btw e r a b) hok)
   | eq c =>
-    have h0 : ∀ f : Row → Bool, T.filter (fun r => f r && onTime (TC.cond (.eq c)) r) = [] :=
+    have h0 : ∀ f : Row α → Bool, T.filter (fun r => f r && onTime (TC.cond (.eq c)) r) = [] :=
       fun f => filter_cond_false f T
     rw [h0]
-    exact fetched_window p T m.window _ _
-      (fun r => selWin_pred (.eq c) p r w m.window _ hd (sel_time_cmp p r c).2.2.2)
+    exact fetched_window e T m.window _ _
+      (fun r => selWin_pred (.eq c) e r w m.window _ hd (sel_time_cmp e r c).2.2.2 hok)
   | lt c =>
-    exact ⟨[], rfl, fetched_all p T _ _ (fun r => selAll_pred (.lt c) p r w _ hd (sel_time_cmp p r c).2.2.1)⟩
+    exact ⟨[], rfl, fetched_all e T _ _ (fun r => selAll_pred (.lt c) e r w _ hd (sel_time_cmp e r c).2.2.1 hok)⟩
   | le c =>
-    exact ⟨[], rfl, fetched_all p T _ _ (fun r => selAll_pred (.le c) p r w _ hd (sel_time_cmp p r c).2.2.2)⟩
+    exact ⟨[], rfl, fetched_all e T _ _ (fun r => selAll_pred (.le c) e r w _ hd (sel_time_cmp e r c).2.2.2 hok)⟩
   | gtLatest =>
-    have h0 : ∀ f : Row → Bool, T.filter (fun r => f r && onTime (TC.cond .gtLatest) r) = [] :=
+    have h0 : ∀ f : Row α → Bool, T.filter (fun r => f r && onTime (TC.cond .gtLatest) r) = [] :=
       fun f => filter_cond_false f T
     rw [h0]
-    exact fetched_window p T m.window _ _ (fun r => selLatest_pred .gtLatest p r w m.window hd)
+    exact fetched_window e T m.window _ _ (fun r => selLatest_pred .gtLatest e r w m.window hd hok)
   | eqLatest =>
-    have h0 : ∀ f : Row → Bool, T.filter (fun r => f r && onTime (TC.cond .eqLatest) r) = [] :=
+    have h0 : ∀ f : Row α → Bool, T.filter (fun r => f r && onTime (TC.cond .eqLatest) r) = [] :=
       fun f => filter_cond_false f T
     rw [h0]
-    exact fetched_window p T m.window _ _ (fun r => selLatest_pred .eqLatest p r w m.window hd)
+    exact fetched_window e T m.window _ _ (fun r => selLatest_pred .eqLatest e r w m.window hd hok)
 
 /-- **T15.1** for every class of the domain (including "no time condition") -/
-theorem C15_rows (m : Meta) (q : Query) (tc : Option TC) (hp : plain q)
-    (hd : Dom m.nG tc q.whereC = true) : RowsSpec m q tc := by
+theorem C15_rows (cfg : Cfg) (m : Meta) (q : Query α) (tc : Option (TC α)) (hp : plain q)
+    (hd : Dom m.nG tc q.whereC = true) : RowsSpec cfg m q tc := by
   cases tc with
   | some tc =>
     cases hq : q.whereC with
     | none => simp [Dom, hq] at hd
-    | some w => rw [hq] at hd; exact C15_rows_tc m q tc w hq hp hd
+    | some w => rw [hq] at hd; exact C15_rows_tc cfg m q tc w hq hp hd
   | none =>
     cases hq : q.whereC with
     | none =>
-      refine ⟨_, plan_none m q hq hp, ?_⟩
-      intro p T
+      refine ⟨_, plan_none cfg m q hq hp, ?_⟩
+      intro e T hok0
+      have hok : e.ns = true ∨ nonNullFrom e m.nG 0 = true := by simpa [envOk] using hok0
       rw [hq]
-      exact ⟨[], rfl, fetched_all p T _ _ (fun r => sel_none_pred p r)⟩
+      exact ⟨[], rfl, fetched_all e T _ _ (fun r => sel_none_pred e r hok)⟩
     | some w =>
       rw [hq] at hd
-      refine ⟨_, plan_pf m q w hq hp hd, ?_⟩
-      intro p T
+      refine ⟨_, plan_pf cfg m q w hq hp hd, ?_⟩
+      intro e T hok0
+      have hok : e.ns = true ∨ nonNullFrom e m.nG 0 = true := by simpa [envOk] using hok0
       rw [hq]
-      exact ⟨[], rfl, fetched_all p T _ _ (fun r => sel_pf_pred p r w hd)⟩
+      exact ⟨[], rfl, fetched_all e T _ _ (fun r => sel_pf_pred e r w hd hok)⟩
 
 /-- partition query: rows selected by the user's non-time filters -/
-theorem C15_partitions (m : Meta) (q : Query) (tc : Option TC) (hp : plain q)
-    (hd : Dom m.nG tc q.whereC = true) (pl : Plan) (h : planTS m q = .ok pl) : PartSpec m q tc pl := by
+theorem C15_partitions (cfg : Cfg) (m : Meta) (q : Query α) (tc : Option (TC α)) (hp : plain q)
+    (hd : Dom m.nG tc q.whereC = true) (pl : Plan α) (h : planTS cfg m q = .ok pl) : PartSpec m q tc pl := by
   cases tc with
   | some tc =>
     cases hq : q.whereC with
     | none => simp [Dom, hq] at hd
     | some w =>
       rw [hq] at hd
-      have := plan_tc m q tc w hq hp hd
+      have := plan_tc cfg m q tc w hq hp hd
       rw [this] at h; injection h with h; subst h
       refine ⟨fun h0 => by simp [h0], fun h0 => ⟨removeTF (some tc.toW) w, by simp [h0], ?_⟩⟩
-      intro p r
-      simpa [restSelO, hq] using tc_remove tc p r w hd
+      intro e r
+      simpa [restSelO, hq] using tc_remove tc e r w hd
   | none =>
     cases hq : q.whereC with
     | none =>
-      have := plan_none m q hq hp
+      have := plan_none cfg m q hq hp
       rw [this] at h; injection h with h; subst h
-      exact ⟨fun h0 => by simp [h0], fun h0 => ⟨none, by simp [h0], fun p r => by simp [selO, restSelO, hq]⟩⟩
+      exact ⟨fun h0 => by simp [h0], fun h0 => ⟨none, by simp [h0], fun e r => by simp [selO, restSelO, hq]⟩⟩
     | some w =>
       rw [hq] at hd
-      have := plan_pf m q w hq hp hd
+      have := plan_pf cfg m q w hq hp hd
       rw [this] at h; injection h with h; subst h
       refine ⟨fun h0 => by simp [h0], fun h0 => ⟨some w, by simp [h0], ?_⟩⟩
-      intro p r
-      have : restSel p W.null w r = sel p w r := pf_restSel p W.null (by rfl) r w hd
+      intro e r
+      have : restSel e W.null w r = sel e w r := pf_restSel e W.null (by rfl) r w hd
       simp [selO, restSelO, this, hq]
 
 /-! ## T15.2 — output_time_filter and LIMIT -/
 
 /-- the output filter is the user's time condition in every class except `t = c` -/
-theorem C15_otf_partial (m : Meta) (q : Query) (tc : Option TC) (hp : plain q)
+theorem C15_otf_partial (cfg : Cfg) (m : Meta) (q : Query α) (tc : Option (TC α)) (hp : plain q)
     (hd : Dom m.nG tc q.whereC = true) (hne : ∀ c, tc ≠ some (.eq c))
-    (pl : Plan) (h : planTS m q = .ok pl) : OtfSpec q tc pl := by
+    (pl : Plan α) (h : planTS cfg m q = .ok pl) : OtfSpec q tc pl := by
   cases tc with
   | some tc =>
     cases hq : q.whereC with
     | none => simp [Dom, hq] at hd
     | some w =>
       rw [hq] at hd
-      have := plan_tc m q tc w hq hp hd
+      have := plan_tc cfg m q tc w hq hp hd
       rw [this] at h; injection h with h; subst h
       cases tc <;> first | rfl | exact absurd rfl (hne _)
   | none =>
     cases hq : q.whereC with
     | none =>
-      have := plan_none m q hq hp
+      have := plan_none cfg m q hq hp
       rw [this] at h; injection h with h; subst h; rfl
     | some w =>
       rw [hq] at hd
-      have := plan_pf m q w hq hp hd
+      have := plan_pf cfg m q w hq hp hd
       rw [this] at h; injection h with h; subst h; rfl
 
 /-- in the `t = c` class the output filter is `t > c` (this is the known finding) -/
-theorem C15_otf_eq (m : Meta) (q : Query) (c : Int) (hp : plain q)
-    (hd : Dom m.nG (some (.eq c)) q.whereC = true) (pl : Plan) (h : planTS m q = .ok pl) :
+theorem C15_otf_eq (cfg : Cfg) (m : Meta) (q : Query α) (c : α) (hp : plain q)
+    (hd : Dom m.nG (some (.eq c)) q.whereC = true) (pl : Plan α) (h : planTS cfg m q = .ok pl) :
     pl.otf = some (TC.gt c).toW := by
   cases hq : q.whereC with
   | none => simp [Dom, hq] at hd
   | some w =>
     rw [hq] at hd
-    have := plan_tc m q (.eq c) w hq hp hd
+    have := plan_tc cfg m q (.eq c) w hq hp hd
     rw [this] at h; injection h with h; subst h; rfl
 
 /-- the user's LIMIT (also `LIMIT 0`, since df1c6e2) becomes the LimitOffsetStep after the join and is never
 pushed into a fetch select (their only limit is the window) -/
-theorem C15_limit (m : Meta) (q : Query) (tc : Option TC) (hp : plain q)
+theorem C15_limit (cfg : Cfg) (m : Meta) (q : Query α) (tc : Option (TC α)) (hp : plain q)
     (hd : Dom m.nG tc q.whereC = true)
-    (pl : Plan) (h : planTS m q = .ok pl) : LimitSpec m q pl := by
+    (pl : Plan α) (h : planTS cfg m q = .ok pl) : LimitSpec m q pl := by
   have hlim : limitOf q.limit = q.limit := rfl
   cases tc with
   | some tc =>
@@ -237,130 +243,260 @@ theorem C15_limit (m : Meta) (q : Query) (tc : Option TC) (hp : plain q)
     | none => simp [Dom, hq] at hd
     | some w =>
       rw [hq] at hd
-      have := plan_tc m q tc w hq hp hd
+      have := plan_tc cfg m q tc w hq hp hd
       rw [this] at h; injection h with h; subst h
       refine ⟨hlim, ?_⟩
       cases tc <;> simp [branchesSpec, injectSel, selWin, selAll, selLatest]
   | none =>
     cases hq : q.whereC with
     | none =>
-      have := plan_none m q hq hp
+      have := plan_none cfg m q hq hp
       rw [this] at h; injection h with h; subst h
       exact ⟨hlim, by simp [injectSel]⟩
     | some w =>
       rw [hq] at hd
-      have := plan_pf m q w hq hp hd
+      have := plan_pf cfg m q w hq hp hd
       rw [this] at h; injection h with h; subst h
       exact ⟨hlim, by simp [injectSel]⟩
 
 /-! ## T15.3 — rejections -/
 
 /-- ORDER BY / GROUP BY / HAVING / OFFSET ⇒ PlanningException (whatever the WHERE is) -/
-theorem C15_reject_flags (m : Meta) (q : Query)
+theorem C15_reject_flags (cfg : Cfg) (m : Meta) (q : Query α)
     (h : q.orderBy = true ∨ q.groupBy = true ∨ q.having = true ∨ q.offset = true) :
-    planTS m q = .planning := by
+    planTS cfg m q = .planning := by
   unfold planTS
   rcases h with h | h | h | h <;> simp [h]
 
 /-- the decision table of `planTS` -/
-theorem C15_decision (m : Meta) (q : Query) :
-    (planTS m q = .planning ↔
+theorem C15_decision (cfg : Cfg) (m : Meta) (q : Query α) :
+    (planTS cfg m q = .planning ↔
       (q.orderBy = true ∨ q.groupBy = true ∨ q.having = true ∨ q.offset = true ∨
-        validO m.nG q.whereC = false ∨ ftOf q.whereC = .two)) ∧
-    (planTS m q = .crash ↔ (plain q ∧ validO m.nG q.whereC = true ∧ ftOf q.whereC = .crash)) := by
+        validO cfg m.nG q.whereC = false ∨ ftOf q.whereC = .two)) ∧
+    (planTS cfg m q = .crash ↔ (plain q ∧ validO cfg m.nG q.whereC = true ∧ ftOf q.whereC = .crash)) := by
   unfold planTS plain
   cases q.orderBy <;> cases q.groupBy <;> cases q.having <;> cases q.offset <;>
-    cases validO m.nG q.whereC <;> cases ftOf q.whereC <;> simp
+    cases validO cfg m.nG q.whereC <;> cases ftOf q.whereC <;> simp
+
+theorem validO_le (cfg : Cfg) (nG : Nat) (w : W α) (h : validO cfg nG (some w) = true) :
+    validate nG w = true := by
+  simp only [validO] at h
+  split at h
+  · exact validateDeep_le nG w h
+  · exact h
 
 /-- on the fragment where `validate_ts_where_condition` sees every position (`visible`), a WHERE with a
 disallowed operator, a column other than the order / group columns, or an AND operand that is not a condition
-is rejected with PlanningException -/
-theorem C15_reject_where_partial (m : Meta) (q : Query) (w : W) (hq : q.whereC = some w)
+is rejected with PlanningException (pinned tree and repaired tree alike) -/
+theorem C15_reject_where_partial (cfg : Cfg) (m : Meta) (q : Query α) (w : W α) (hq : q.whereC = some w)
     (hop : w.isOperation = true) (hvis : visible w = true)
-    (hbad : opsOk w = false ∨ colsOk m.nG w = false ∨ andOk w = false) : planTS m q = .planning := by
+    (hbad : opsOk w = false ∨ colsOk m.nG w = false ∨ andOk w = false) : planTS cfg m q = .planning := by
   have hs := validate_spec m.nG w hvis
   rw [identOk_op m.nG hop, Bool.and_true] at hs
-  have : validO m.nG q.whereC = false := by
-    rw [hq]; simp only [validO]; rw [hs]
+  have hvf : validate m.nG w = false := by
+    rw [hs]; rcases hbad with h | h | h <;> simp [h]
+  have : validO cfg m.nG q.whereC = false := by
+    rw [hq]
+    cases hv : validO cfg m.nG (some w) with
+    | false => rfl
+    | true => rw [validO_le cfg m.nG w hv] at hvf; exact absurd hvf (by simp)
+  exact ((C15_decision cfg m q).1).2 (Or.inr (Or.inr (Or.inr (Or.inr (Or.inl this)))))
+
+/-- **with fixes/C15_3.diff** (`cfg.deepValidate`): the same for *every* WHERE, no `visible` restriction —
+this closes KF-C15-3 -/
+theorem C15_reject_where_fixed (cfg : Cfg) (hcfg : cfg.deepValidate = true) (m : Meta) (q : Query α) (w : W α)
+    (hq : q.whereC = some w) (hop : w.isOperation = true)
+    (hbad : opsOk w = false ∨ colsOk m.nG w = false ∨ andOk w = false) : planTS cfg m q = .planning := by
+  have hs := validateDeep_spec m.nG w
+  rw [identOk_op m.nG hop, Bool.and_true] at hs
+  have : validO cfg m.nG q.whereC = false := by
+    rw [hq]; simp only [validO, hcfg, if_true]; rw [hs]
     rcases hbad with h | h | h <;> simp [h]
-  exact ((C15_decision m q).1).2 (Or.inr (Or.inr (Or.inr (Or.inr (Or.inl this)))))
+  exact ((C15_decision cfg m q).1).2 (Or.inr (Or.inr (Or.inr (Or.inr (Or.inl this)))))
 
 /-- conversely, on that fragment an all-allowed WHERE passes the validation -/
-theorem C15_validate_iff (nG : Nat) (w : W) (hop : w.isOperation = true) (hvis : visible w = true) :
+theorem C15_validate_iff (nG : Nat) (w : W α) (hop : w.isOperation = true) (hvis : visible w = true) :
     validate nG w = (opsOk w && colsOk nG w && andOk w) := by
   have hs := validate_spec nG w hvis
   rwa [identOk_op nG hop, Bool.and_true] at hs
 
+/-- the repaired validation is the independent reading on every WHERE -/
+theorem C15_validateDeep_iff (nG : Nat) (w : W α) (hop : w.isOperation = true) :
+    validateDeep nG w = (opsOk w && colsOk nG w && andOk w) := by
+  have hs := validateDeep_spec nG w
+  rwa [identOk_op nG hop, Bool.and_true] at hs
+
 /-- nothing but PlanningException (since 8068254): for every WHERE the parser can produce (an Operation or
 none) the model never crashes -/
-theorem C15_no_crash (m : Meta) (q : Query)
+theorem C15_no_crash (cfg : Cfg) (m : Meta) (q : Query α)
     (h : ∀ w, q.whereC = some w → w.isOperation = true) :
-    planTS m q ≠ .crash := by
+    planTS cfg m q ≠ .crash := by
   intro hc
-  obtain ⟨_, hv, hft⟩ := ((C15_decision m q).2).1 hc
+  obtain ⟨_, hv, hft⟩ := ((C15_decision cfg m q).2).1 hc
   cases hq : q.whereC with
   | none => rw [hq] at hft; simp [ftOf] at hft
   | some w =>
     rw [hq] at hft hv
-    exact findTF_no_crash m.nG w (h w hq) hv hft
+    exact findTF_no_crash m.nG w (h w hq) (validO_le cfg m.nG w hv) hft
+
+/-! ## order column on the right — what fixes/C15_4.diff buys (closes KF-C15-5 when it lands) -/
+
+/-- **with fixes/C15_4.diff** (`cfg.normalizeTF`): a WHERE whose time condition is written `c op t` is planned
+exactly like the WHERE with that leaf rewritten to `t op' c`; the rewritten WHERE is in the domain of
+`C15_rows` (class `rc.mirror`) and selects the same rows as the user's WHERE. Hence the fetched rows are the
+rows of the user's condition plus the window before its lower bound. -/
+theorem C15_rows_rev_fixed (cfg : Cfg) (hcfg : cfg.normalizeTF = true) (m : Meta) (q : Query α) (rc : RC α)
+    (w : W α) (hq : q.whereC = some w) (hp : plain q) (hd : tcTree m.nG rc.toW w = true) :
+    let w' := replaceTF rc.toW rc.mirror.toW w
+    planTS cfg m q = planTS cfg m { q with whereC := some w' } ∧
+    RowsSpec cfg m { q with whereC := some w' } (some rc.mirror) ∧
+    ∀ e r, sel e w' r = sel e w r := by
+  intro w'
+  have hd' : tcTree m.nG rc.mirror.toW w' = true := rc_replace_tcTree rc w hd
+  have hp' : plain { q with whereC := some w' } := hp
+  refine ⟨?_, C15_rows cfg m _ (some rc.mirror) hp' (by simpa [Dom] using hd'), fun e r => rc_replace_sel rc e r w hd⟩
+  obtain ⟨ho, hg, hh, hf⟩ := hp
+  -- left: find the reversed leaf, normalise it in place
+  have hv : validO cfg m.nG q.whereC = true := by rw [hq]; exact rc_validO rc cfg w hd
+  have hft : ftOf q.whereC = FT.one rc.toW := by rw [hq]; exact rc_findTF rc w hd
+  have h1 := planTS_eq_some cfg m q ho hg hh hf hv rc.toW hft
+  have hn : normStep cfg q.whereC rc.toW = (some w', rc.mirror.toW) := by
+    simp [normStep, hcfg, hq, normTF_rc, w']
+  rw [hn] at h1
+  -- right: already normal
+  have hv' : validO cfg m.nG (some w') = true := tc_validO rc.mirror cfg w' hd'
+  have hft' : ftOf (some w') = FT.one rc.mirror.toW := tc_findTF rc.mirror w' hd'
+  have h2 := planTS_eq_some cfg m { q with whereC := some w' } ho hg hh hf hv' rc.mirror.toW hft'
+  rw [normStep_tc] at h2
+  rw [h1, h2]
+
+/-! ## NULL partition values: what the executor has to provide -/
+
+/-- with plain SQL equality for `col = $var[col]` a partition record that contains a NULL group value
+receives no rows at all (whatever the table) -/
+theorem C15_null_partition_empty (cfg : Cfg) (m : Meta) (q : Query α) (tc : Option (TC α)) (hp : plain q)
+    (hd : Dom m.nG tc q.whereC = true) (pl : Plan α) (h : planTS cfg m q = .ok pl)
+    (e : Env α) (hns : e.ns = false) (hnull : nonNullFrom e m.nG 0 = false) (T : List (Row α)) :
+    fetched e T pl.selects = [] := by
+  have key : ∀ sels : List (Sel α), fetched e T (sels.map (injectSel m.nG)) = [] := by
+    intro sels
+    induction sels with
+    | nil => rfl
+    | cons s rest ih =>
+      have hs : T.filter (sel e (injectSel m.nG s).whereC) = [] := by
+        have : sel e (injectSel m.nG s).whereC = fun _ => false := by
+          funext r; exact sel_injectVars_null e r hns m.nG 0 s.whereC hnull
+        rw [this]; simp
+      simp only [fetched, List.map, List.flatten_cons] at ih ⊢
+      rw [ih]
+      cases hl : (injectSel m.nG s).limit <;> simp [evalSel, hs, hl, limitTake]
+  cases tc with
+  | some tc =>
+    cases hq : q.whereC with
+    | none => simp [Dom, hq] at hd
+    | some w =>
+      rw [hq] at hd
+      have := plan_tc cfg m q tc w hq hp hd
+      rw [this] at h; injection h with h; subst h
+      exact key _
+  | none =>
+    cases hq : q.whereC with
+    | none =>
+      have := plan_none cfg m q hq hp
+      rw [this] at h; injection h with h; subst h
+      exact key [_]
+    | some w =>
+      rw [hq] at hd
+      have := plan_pf cfg m q w hq hp hd
+      rw [this] at h; injection h with h; subst h
+      exact key [_]
+
+/-- **T15.1 for every partition record, NULLs included**, provided the executor fills `$var[col]`
+null-safely (`col IS NOT DISTINCT FROM value`): this is `C15_rows` with `e.ns = true` -/
+theorem C15_rows_nullsafe (cfg : Cfg) (m : Meta) (q : Query α) (tc : Option (TC α)) (hp : plain q)
+    (hd : Dom m.nG tc q.whereC = true) :
+    ∃ pl, planTS cfg m q = .ok pl ∧ ∀ (p : List (Option α)) (T : List (Row α)),
+      ∃ L, WindowSpec m.window ⟨p, true⟩ m.nG tc q.whereC T L ∧
+        (fetched ⟨p, true⟩ T pl.selects).Perm (condRows ⟨p, true⟩ m.nG tc q.whereC T ++ L) := by
+  obtain ⟨pl, h1, h2⟩ := C15_rows cfg m q tc hp hd
+  exact ⟨pl, h1, fun p T => h2 ⟨p, true⟩ T (by simp [envOk])⟩
 
 /-! ## witnesses: the model exhibits the known defects (each reproduced on the real code by the check) -/
 
 /-- KF-C15-1: `WHERE ta.t = 5` — output_time_filter is `t > 5`, not the user's `t = 5` -/
 theorem C15_witness_1 :
-    ∃ pl, planTS ⟨1, 3⟩ { whereC := some (TC.eq 5).toW } = .ok pl ∧
-      ¬ OtfSpec { whereC := some (TC.eq 5).toW } (some (.eq 5)) pl :=
+    ∃ pl, planTS (α := Int) Cfg.pinned ⟨1, 3⟩ { whereC := some (TC.eq 5).toW } = .ok pl ∧
+      ¬ OtfSpec (α := Int) { whereC := some (TC.eq 5).toW } (some (.eq 5)) pl :=
   ⟨_, rfl, by unfold OtfSpec; decide⟩
 
 /-- KF-C15-2 (fixed by df1c6e2): `LIMIT 0` is planned as `LimitOffsetStep(limit=0)` -/
-example : ∃ pl, planTS ⟨1, 3⟩ { whereC := some (TC.gt 5).toW, limit := some 0 } = .ok pl ∧
+example : ∃ pl, planTS (α := Int) Cfg.pinned ⟨1, 3⟩ { whereC := some (TC.gt 5).toW, limit := some 0 } = .ok pl ∧
     pl.limitStep = some 0 := ⟨_, rfl, rfl⟩
 
-/-- KF-C15-3: a foreign column inside a non-Operation node (`ta.g IN (ta.x, 1)`, CAST, CASE, sub-select) is
-not rejected -/
+/-- KF-C15-3: a foreign column inside a non-Operation node (`ta.g IN (ta.x, 1)`, CAST, CASE) is not rejected -/
 theorem C15_witness_3 :
-    colsOk 1 (.bin .inn (.ident (.grp 0)) (.opaque true)) = false ∧
-    planTS ⟨1, 3⟩ { whereC := some (.bin .inn (.ident (.grp 0)) (.opaque true)) } ≠ .planning := by decide
+    colsOk (α := Int) 1 (.bin .inn (.ident (.grp 0)) (.opaque true)) = false ∧
+    planTS (α := Int) Cfg.pinned ⟨1, 3⟩ { whereC := some (.bin .inn (.ident (.grp 0)) (.opaque true)) } ≠ .planning := by
+  decide
 
 /-- KF-C15-3 (second shape): a foreign column / disallowed operator in an Operation that is the third BETWEEN
 operand (`ta.g BETWEEN 1 AND (ta.x + 1)`) is not rejected -/
 theorem C15_witness_4 :
-    let w := W.btw (.ident (.grp 0)) (.const 1) (.bin (.bad 0) (.ident .other) (.const 1))
-    opsOk w = false ∧ colsOk 1 w = false ∧ planTS ⟨1, 3⟩ { whereC := some w } ≠ .planning := by decide
+    let w : W Int := W.btw (.ident (.grp 0)) (.const 1) (.bin (.bad 0) (.ident .other) (.const 1))
+    opsOk w = false ∧ colsOk 1 w = false ∧ planTS Cfg.pinned ⟨1, 3⟩ { whereC := some w } ≠ .planning := by decide
 
 /-- KF-C15-4 (fixed by 8068254): `WHERE ta.g = 1 AND ta.g` is rejected with PlanningException -/
 example :
-    planTS ⟨1, 3⟩ { whereC := some (.bin .and (.bin .eq (.ident (.grp 0)) (.const 1)) (.ident (.grp 0))) }
+    planTS (α := Int) Cfg.pinned ⟨1, 3⟩
+      { whereC := some (.bin .and (.bin .eq (.ident (.grp 0)) (.const 1)) (.ident (.grp 0))) }
       = .planning := by decide
 
 /-- KF-C15-5 (outside `Dom`): order column on the right, `5 < ta.t` — no window select is produced although
 the condition has the lower bound 5 -/
 theorem C15_witness_6 :
-    ∃ pl, planTS ⟨0, 3⟩ { whereC := some (.bin .lt (.const 5) (.ident .time)) } = .ok pl ∧
+    ∃ pl, planTS (α := Int) Cfg.pinned ⟨0, 3⟩ { whereC := some (.bin .lt (.const 5) (.ident .time)) } = .ok pl ∧
       pl.selects.length = 1 ∧ ∀ s ∈ pl.selects, s.limit = none := by
   refine ⟨_, rfl, by decide⟩
 
+/-- NULL partition value under plain SQL equality: the table has a row of the NULL partition that satisfies
+the user's condition (so the specification set is not empty), but nothing is fetched. Not a defect of this
+library by itself — it states what the executor of MapReduceStep must do (`C15_rows_nullsafe`). -/
+theorem C15_witness_null :
+    let q : Query Int := { whereC := some (TC.gt 2).toW }
+    let e : Env Int := ⟨[none], false⟩
+    let T : List (Row Int) := [⟨some 3, [none]⟩]
+    condRows e 1 (some (.gt 2)) q.whereC T = T ∧
+    ∀ pl, planTS Cfg.pinned ⟨1, 3⟩ q = .ok pl → fetched e T pl.selects = [] := by
+  refine ⟨by decide, fun pl h => ?_⟩
+  exact C15_null_partition_empty Cfg.pinned ⟨1, 3⟩ _ (some (.gt 2)) (by decide) (by decide) pl h _ rfl (by decide) _
+
 /-- hence the full statement does not hold for the model of the pinned tree -/
-theorem C15_full_false : ¬ C15_full := by
+theorem C15_full_false : ¬ C15_full Int := by
   intro h
-  have h1 := (h ⟨1, 3⟩ { whereC := some (TC.eq 5).toW }).2 (some (.eq 5)) (by decide) (by decide)
+  have h1 := (h Cfg.pinned ⟨1, 3⟩ { whereC := some (TC.eq 5).toW }).2 (some (.eq 5)) (by decide) (by decide)
   obtain ⟨pl, hpl, hn⟩ := C15_witness_1
   exact hn (h1.2 pl hpl).2.1
 
 /-! ## non-vacuity -/
 
-example : Dom 2 (some (.gt 5)) (some (.bin .and (.bin .eq (.ident (.grp 0)) (.const 1))
+example : Dom (α := Int) 2 (some (.gt 5)) (some (.bin .and (.bin .eq (.ident (.grp 0)) (.const 1))
     (.bin .and (TC.gt 5).toW (.bin .inn (.ident (.grp 1)) (.tuple [1, 2]))))) = true := by decide
-example : Dom 0 none none = true := by decide
-example : Dom 1 (some .eqLatest) (some (.bin .and (TC.eqLatest).toW (.btw (.ident (.grp 0)) (.const 0) (.const 2))))
-    = true := by decide
-example : plain { whereC := none, limit := some 7 } := by decide
+example : Dom (α := Int) 0 none none = true := by decide
+example : Dom (α := Int) 1 (some .eqLatest)
+    (some (.bin .and (TC.eqLatest).toW (.btw (.ident (.grp 0)) (.const 0) (.const 2)))) = true := by decide
+/-- the value domain may be ISO date strings -/
+example : Dom (α := String) 1 (some (.ge "2020-01-01"))
+    (some (.bin .and (TC.ge "2020-01-01").toW (.bin .eq (.ident (.grp 0)) (.const "nyc")))) = true := by decide
+example : (VOrd.le "2020-01-02" "2020-01-10" : Bool) = true := by decide
+example : plain (α := Int) { whereC := none, limit := some 7 } := by decide
+example : envOk (α := Int) ⟨[some 1, none], true⟩ 2 = true ∧ envOk (α := Int) ⟨[some 1, some 2], false⟩ 2 = true := by
+  decide
 /-- the specification sets are inhabited, with a tie at the window boundary (two candidates at t = 1) -/
 example :
-    let T : List Row := [⟨some 1, [some 1]⟩, ⟨some 1, [some 1]⟩, ⟨some 3, [some 1]⟩, ⟨none, [some 1]⟩, ⟨some 0, [some 2]⟩]
-    condRows [1] 1 (some (.gt 2)) (some (TC.gt 2).toW) T = [⟨some 3, [some 1]⟩] ∧
-    candRows [1] 1 (some (.gt 2)) (some (TC.gt 2).toW) (fun v => decide (v ≤ 2)) T
+    let T : List (Row Int) := [⟨some 1, [some 1]⟩, ⟨some 1, [some 1]⟩, ⟨some 3, [some 1]⟩, ⟨none, [some 1]⟩, ⟨some 0, [some 2]⟩]
+    condRows ⟨[some 1], false⟩ 1 (some (.gt 2)) (some (TC.gt 2).toW) T = [⟨some 3, [some 1]⟩] ∧
+    candRows ⟨[some 1], false⟩ 1 (some (.gt 2)) (some (TC.gt 2).toW) (fun v => vle v 2) T
       = [⟨some 1, [some 1]⟩, ⟨some 1, [some 1]⟩] := by decide
-example : visible (.bin .and (.bin .eq (.ident .other) (.const 1)) (TC.gt 2).toW) = true := by decide
+example : visible (α := Int) (.bin .and (.bin .eq (.ident .other) (.const 1)) (TC.gt 2).toW) = true := by decide
 
 end MindsVerif.Props.C15
